@@ -360,6 +360,9 @@ class Program:
                 base_ = None
             if isinstance(base_, _pl.PurePath) and node.attr in ("name", "suffix", "stem", "suffixes", "parent", "parts"):
                 return getattr(base_, node.attr)
+            import types as _ty
+            if isinstance(base_, _ty.SimpleNamespace) and hasattr(base_, node.attr):
+                return getattr(base_, node.attr)          # a symbolic record supplied through env
             raise CannotFold(f"attribute not foldable: {unparse(node)}")
         if isinstance(node, ast.Call):
             fn = node.func
